@@ -210,7 +210,7 @@ Proof.
   unfold fix_last. destruct (rev l) as [|i r] eqn:E.
   - intros H; inversion H; auto.
   - destruct r as [|k r]; [discriminate|]. intros H; inversion H; subst; clear H.
-    rewrite <- (rev_involutive l), E. simpl rev at 2. rewrite !smas_app. reflexivity.
+    rewrite <- (rev_involutive l), E. cbn [rev]. rewrite !smas_app. reflexivity.
 Qed.
 
 Section SchedQ.
@@ -358,7 +358,7 @@ Proof.
   destruct (fit_isophote_spec _ _ _ _ _ _ _ _ _ Hf Hs) as (Hsma & Hval & Hl1 & Hs1).
   destruct (if (i_code Qnum i <? 0)%Z then fix_last Qnum true l1 else Some l1) as [l2|] eqn:Hfx; auto.
   assert (Hsm : smas l2 = smas l1).
-  { destruct (i_code Qnum i <? 0)%Z; [apply fix_last_smas; auto|inversion Hfx; auto]. }
+  { destruct (i_code Qnum i <? 0)%Z; [eapply fix_last_smas; eauto|inversion Hfx; auto]. }
   destruct (i_valid Qnum i) eqn:Hv.
   - assert (Hsm2 : smas l2 = lo ++ (li ++ [sma])).
     { rewrite Hsm, Hl1, smas_app, Hl. simpl. rewrite Hsma, app_assoc. reflexivity. }
